@@ -3,6 +3,7 @@ package c12merge
 import (
 	"context"
 	"fmt"
+	"strings"
 	"sync"
 	"sync/atomic"
 	"testing"
@@ -1010,4 +1011,105 @@ func runWide(p WidePlan) (vk.Outcome, error) {
 func TestStreamMergeWide(t *testing.T) {
 	theT = t
 	vk.Run(t, suite, "stream-merge-wide", 10, genWide, runWide)
+}
+
+// ---------------------------------------------------------------------------------------------
+// stream.Merge: an input's failure reaches the consumer even while other inputs are busy
+//
+// One input fails after a few values. The others are inside a Next call that does not watch its context (a
+// Stream need not: a blocking read from something that cannot be interrupted) and that only returns once
+// the consumer has been told about the failure - i.e. the error's way to the consumer must not lead through
+// the other inputs. If it does, everybody waits for everybody: the bubble deadlocks ("silence").
+
+type BusyPlan struct {
+	Siblings int `json:"siblings"`
+	Before   int `json:"before"`  // values the failing input yields first
+	SibVals  int `json:"sibvals"` // values every sibling yields before it goes into its long call
+	FailPos  int `json:"failpos"` // position of the failing input among the arguments
+}
+
+func genBusy(t *rapid.T) BusyPlan {
+	p := BusyPlan{Siblings: rapid.IntRange(1, 5).Draw(t, "siblings"), Before: rapid.IntRange(0, 3).Draw(t, "before"), SibVals: rapid.IntRange(0, 2).Draw(t, "sibvals")}
+	p.FailPos = rapid.IntRange(0, p.Siblings).Draw(t, "failpos")
+	return p
+}
+
+func runBusy(p BusyPlan) (vk.Outcome, error) {
+	var out vk.Outcome
+	err := bubble(func() error {
+		E := sk.NewSentinel("E")
+		told := make(chan struct{}) // closed once the consumer has seen E
+		var ss []stream.Stream[int]
+		var recs []*sk.RecStream[int]
+		total := 0
+		for i := 0; i <= p.Siblings; i++ {
+			if i == p.FailPos {
+				items := make([]int, p.Before)
+				for k := range items {
+					items[k] = val(i, k)
+				}
+				r := sk.NewRecStream("failing", items)
+				r.FinalAt, r.Final = p.Before, E
+				recs = append(recs, r)
+				ss = append(ss, r)
+				total += p.Before
+				continue
+			}
+			n, closed := 0, false
+			i := i
+			ss = append(ss, funcStream[int]{
+				next: func(ctx context.Context) (int, error) {
+					if closed {
+						panic("Next after Close")
+					}
+					if n < p.SibVals {
+						n++
+						return val(i, n-1), nil
+					}
+					<-told // (does not look at ctx)
+					return 0, stream.End
+				},
+				close: func() { closed = true },
+			})
+			total += p.SibVals
+		}
+		m := stream.Merge(ss...)
+		got := 0
+		for {
+			_, err := m.Next(context.Background())
+			if err == nil {
+				got++
+				if got > total {
+					m.Close()
+					return vk.Violf("invented-value", "more than the %d values the inputs hold", total)
+				}
+				continue
+			}
+			if err != E {
+				close(told)
+				m.Close()
+				return vk.Violf("wrong-error", "input %d failed with E after %d values while %d other inputs were busy: the merged stream reported %v", p.FailPos, p.Before, p.Siblings, err)
+			}
+			break
+		}
+		close(told)
+		m.Close()
+		for _, r := range recs {
+			if err := r.Ownership(); err != nil {
+				return vk.Violf("ownership", "after Close of the merged stream: %v", err)
+			}
+		}
+		return nil
+	})
+	if err != nil && strings.Contains(err.Error(), "stuck") {
+		err = vk.Violf("error-held-back", "stream.Merge of %d inputs: input %d failed after %d values while the others were inside a Next call that only returns once the consumer has seen the failure; the consumer never saw it (%v)", p.Siblings+1, p.FailPos, p.Before, err)
+	}
+	out.NonTrivial = true
+	out.Label(fmt.Sprintf("busy/siblings=%d", p.Siblings))
+	return out, err
+}
+
+func TestStreamMergeErrorBusySiblings(t *testing.T) {
+	theT = t
+	vk.Run(t, suite, "stream-merge-error-busy-sibling", 200, genBusy, runBusy)
 }
